@@ -1,6 +1,7 @@
 import FluteModel.Recv
 import FluteModel.RecvMini
 import FluteModel.ObjRecv
+import FluteModel.Lemmas.ObjRecvAttach
 /-
   The full object model `ObjRecv` (engine `orecv`) as an `ObjIface` of the session-level receiver,
   so that `Recv` can be run - and its theorems instantiated - with the real object model instead of
@@ -52,6 +53,9 @@ structure Obj where
   st : ObjRecv.St
   cc : Option CacheControl := none
   fault : Bool := false
+  /-- the object state is one that `new`/`push`/`attach_fdt` can produce: carries the invariants of
+      agent orecv's model (`Lemmas/ObjRecvAttach.lean`); a proof, erased at run time -/
+  reach : ObjRecv.Reach params st
 
 def stateOf : ObjRecv.OState → ObjState
   | .receiving => .receiving
@@ -71,13 +75,15 @@ def wev (cc : Option CacheControl) : ObjRecv.WCall → WEv
 def newCalls (cc : Option CacheControl) (before after : ObjRecv.St) : List WEv :=
   ((after.out.take (after.out.length - before.out.length)).reverse).map (wev cc)
 
-def new (toi maxCache : Nat) : Obj := { st := ObjRecv.St.new toi maxCache }
+def new (toi maxCache : Nat) : Obj :=
+  { st := ObjRecv.St.new toi maxCache, reach := ObjRecv.reach_new params toi maxCache }
 
 def push (o : Obj) (p : Recv.Pkt) : Obj × List WEv :=
   if o.fault then (o, []) else
-  match ObjRecv.push params o.st (toPkt p) with
+  match h : ObjRecv.push params o.st (toPkt p) with
   | .error _ => ({ o with fault := true }, [])
-  | .ok st' => ({ o with st := st' }, newCalls o.cc o.st st')
+  | .ok st' =>
+    ({ o with st := st', reach := ObjRecv.reach_push params o.st (toPkt p) o.reach h }, newCalls o.cc o.st st')
 
 def entryOf (x : FileAbs) (cc : CacheControl) : ObjRecv.FileEntry :=
   { oti := x.oti.map otiOf, tl := x.tlen, cl := none, cenc := .null, md5 := none,
@@ -87,11 +93,11 @@ def attachFdt (o : Obj) (id : Nat) (fdt : FdtAbs) : Obj × Bool × List WEv :=
   if o.fault then (o, false, []) else
   let file := fdt.getFile o.st.toi
   let cc := file.map (fun x => x.cacheControl fdt.expirationDate)
-  match ObjRecv.attachFdt params o.st id (file.map (fun x => entryOf x (x.cacheControl fdt.expirationDate))) with
+  match h : ObjRecv.attachFdt params o.st id (file.map (fun x => entryOf x (x.cacheControl fdt.expirationDate))) with
   | .error _ => ({ o with fault := true }, false, [])
   | .ok (st', ok) =>
     let cc' := if ok then cc else o.cc
-    ({ o with st := st', cc := cc' }, ok, newCalls cc' o.st st')
+    ({ o with st := st', cc := cc', reach := ObjRecv.reach_attach params o.st id _ o.reach h }, ok, newCalls cc' o.st st')
 
 def drop (o : Obj) : List WEv := newCalls o.cc o.st (ObjRecv.drop o.st)
 
